@@ -85,6 +85,10 @@ def run(ctx):
     ctx.rule('C18.ALIGN', lambda: rule_align(ctx), 3)
     ctx.rule('C18.WARMUP', lambda: rule_warmup(ctx), 2)
     ctx.rule('C18.TRUNCOPEN', lambda: rule_truncopen(ctx), 3)
+    from . import c18x
+    ctx.rule('C18.JSONPATH', lambda: c18x.rule_jsonpath(ctx), 2)
+    ctx.rule('C18.PERMIT', lambda: c18x.rule_permit(ctx), 2)
+    ctx.rule('C18.HANDLERSAFE', lambda: c18x.rule_handlersafe(ctx, send_parts, send_names, handler_names), 7)
 
 
 def send_parts(ctx):
